@@ -61,6 +61,7 @@ class Val:
 EMPTY = Val()
 NOOPS = frozenset()
 FMT = frozenset(["fmt"])
+STAR = frozenset(["*"])
 
 
 def A(origin, *ops):
@@ -403,6 +404,10 @@ class Interp:
                 pass
         for k, f in v.fields.items():
             if k.startswith("#"):
+                if k == "#may:key":
+                    # what selected this value (storage key / range bound / query argument)
+                    for (oo, ops) in self.flat(store, f, depth + 1, seen):
+                        out.add((oo, ops | {"key"}))
                 continue
             out |= self.flat(store, f, depth + 1, seen)
         return out
@@ -412,7 +417,8 @@ class Interp:
         for v in vals:
             for (o, ops) in self.flat(store, v):
                 if ops and o.startswith("Const("):
-                    continue    # constants are kept only in first-order derivations
+                    at.add((o, STAR))   # constants keep their identity, not their operator history
+                    continue
                 if op == "fmt":
                     at.add((o, FMT))   # formatting: only the origin matters
                 else:
